@@ -48,9 +48,11 @@ def main():
                 if c["call"] in ("encode_host", "idna_encode", "idna_decode"):
                     h = "".join(map(chr, c["h"]))
                     ev["h"] = c["h"]
+                    ev["ok"] = False            # every field the trace specification reads exists whatever happens below
+                    if c["call"] == "encode_host":
+                        ev["flag"] = bool(c["flag"])
                     try:
                         if c["call"] == "encode_host":
-                            ev["flag"] = bool(c["flag"])
                             _url._encode_host(h, validate_host=bool(c["flag"]))     # the way the library itself calls it
                         elif c["call"] == "idna_encode":
                             _url._idna_encode(h)
@@ -62,6 +64,7 @@ def main():
                 elif c["call"] == "cache_clear":
                     yarl.cache_clear()
                 elif c["call"] == "cache_configure":
+                    ev["sizes"] = {n: c["sizes"][n] for n in NAMES}
                     sz = {n: (None if c["sizes"][n] == -1 else c["sizes"][n]) for n in NAMES}
                     yarl.cache_configure(idna_encode_size=sz["idna_encode"], idna_decode_size=sz["idna_decode"],
                                          encode_host_size=sz["encode_host"])
